@@ -25,7 +25,14 @@ pub fn file_pos(
     snap: &ServerSnapshot,
     doc: lsp_types::TextDocumentPositionParams,
 ) -> (FilePosition, Arc<LineIndex>) {
+    #[cfg(feature = "verif")]
+    crate::verif::emit(crate::verif::Event::VfsReadWant);
     let vfs = snap.vfs.read().unwrap();
+    #[cfg(feature = "verif")]
+    let _verif_read = crate::verif::scope(
+        crate::verif::Event::VfsReadHeld,
+        crate::verif::Event::VfsReadReleased,
+    );
     let path = UrlExt::to_file_path(&doc.text_document.uri);
     let file_id = vfs.file_for_path(&path).unwrap();
     let line_index = snap.analysis.line_index(file_id);
@@ -38,7 +45,14 @@ pub fn file_range(
     doc: lsp_types::TextDocumentIdentifier,
     lsp_range: lsp_types::Range,
 ) -> (FileRange, Arc<LineIndex>) {
+    #[cfg(feature = "verif")]
+    crate::verif::emit(crate::verif::Event::VfsReadWant);
     let vfs = snap.vfs.read().unwrap();
+    #[cfg(feature = "verif")]
+    let _verif_read = crate::verif::scope(
+        crate::verif::Event::VfsReadHeld,
+        crate::verif::Event::VfsReadReleased,
+    );
     let path = UrlExt::to_file_path(&doc.uri);
     let file_id = vfs.file_for_path(&path).unwrap();
     let line_index = snap.analysis.line_index(file_id);
@@ -50,7 +64,14 @@ pub fn file(
     snap: &ServerSnapshot,
     doc: lsp_types::TextDocumentIdentifier,
 ) -> (FileId, Arc<LineIndex>) {
+    #[cfg(feature = "verif")]
+    crate::verif::emit(crate::verif::Event::VfsReadWant);
     let vfs = snap.vfs.read().unwrap();
+    #[cfg(feature = "verif")]
+    let _verif_read = crate::verif::scope(
+        crate::verif::Event::VfsReadHeld,
+        crate::verif::Event::VfsReadReleased,
+    );
     let path = UrlExt::to_file_path(&doc.uri);
     let file_id = vfs.file_for_path(&path).unwrap();
     let line_index = snap.analysis.line_index(file_id);
